@@ -46,9 +46,10 @@ func main() {
 			fmt.Fprintln(os.Stderr, err)
 			os.Exit(2)
 		}
-		keys := core.DeclKeys(p.All)
-		b, _ := json.MarshalIndent(keys, "", " ")
-		if err := os.WriteFile(filepath.Join(*verif, "baseline_funcs.json"), b, 0o644); err != nil {
+		bl := core.BuildBaseline(p.All)
+		keys := bl.Funcs
+		b, _ := json.MarshalIndent(bl, "", " ")
+		if err := os.WriteFile(filepath.Join(*verif, "baseline.json"), b, 0o644); err != nil {
 			fmt.Fprintln(os.Stderr, err)
 			os.Exit(2)
 		}
@@ -84,14 +85,17 @@ func main() {
 	abs, _ := filepath.Abs(*repo)
 	// normalisation: helpers that are new relative to the baseline tree are inlined at their call sites
 	var normNotes []string
-	if b, err := os.ReadFile(filepath.Join(*verif, "baseline_funcs.json")); err == nil && os.Getenv("VCHECK_NO_NORMALIZE") == "" {
-		var keys []string
-		if json.Unmarshal(b, &keys) == nil {
+	if bl := core.LoadBaseline(filepath.Join(*verif, "baseline.json")); bl != nil && os.Getenv("VCHECK_NO_NORMALIZE") == "" {
+		if core.NamesDiffer(abs, ov, bl) {
+			var n1 []string
+			ov, n1 = core.RenameBack(abs, ov, *goarch, bl)
 			base := map[string]bool{}
-			for _, k := range keys {
+			for k := range bl.Funcs {
 				base[k] = true
 			}
-			ov, normNotes = core.Normalize(abs, ov, *goarch, base)
+			var n2 []string
+			ov, n2 = core.Normalize(abs, ov, *goarch, base)
+			normNotes = append(append(normNotes, n1...), n2...)
 		}
 	}
 	p, err := core.Load(abs, ov, *goarch)
